@@ -9,7 +9,7 @@ from ..common import rf, import_gscrib
 import_gscrib()
 from gscrib.hooks.extrusion_hook import extrusion_hook   # noqa: E402
 
-GEOM = {"ext1": (0.2, 0.4, 1.75), "ext2": (0.3, 0.6, 2.85)}
+GEOM = {"ext1": (0.2, 0.4, 1.75), "ext2": (0.6, 0.4, 2.85)}          # (layer, nozzle, filament); ext2: a layer taller than the nozzle is wide
 
 
 def k_of(name):
